@@ -12,24 +12,32 @@ package c15
 import (
 	"context"
 	"fmt"
+	"os"
 	"testing"
 	"time"
 
 	"github.com/alicebob/miniredis/v2"
 
+	appserver "tunnox-core/internal/app/server"
 	"tunnox-core/internal/core/node"
 	"tunnox-core/internal/core/storage"
 	"tunnox-core/verif/vkit"
 )
 
 type renewalOutcome struct {
+	via         string
 	key, detail string
 	err         error
 }
 
 var renewalDone chan renewalOutcome
 
-func runRenewal() renewalOutcome {
+var renewalVias = []string{"allocator", "component"}
+
+// via: "allocator" = NodeIDAllocator used directly; "component" = the server's start-up path,
+// NodeComponent.Initialize with NODE_ID unset (whatever context handling it adds around the
+// allocation is part of what keeps — or stops — the renewal).
+func runRenewal(via string) renewalOutcome {
 	ctx, cancel := context.WithCancel(context.Background())
 	defer cancel()
 	mr, err := miniredis.Run()
@@ -54,8 +62,31 @@ func runRenewal() renewalOutcome {
 		return renewalOutcome{err: err}
 	}
 	defer stB.Close()
-	a := node.NewNodeIDAllocator(stA)
-	idA, err := a.AllocateNodeID(ctx)
+	var release []func()
+	defer func() {
+		for _, f := range release {
+			f()
+		}
+	}()
+	start := func(st storage.Storage) (string, error) {
+		if via == "component" {
+			deps := &appserver.Dependencies{Storage: st}
+			if err := (&appserver.NodeComponent{}).Initialize(ctx, deps); err != nil {
+				return "", err
+			}
+			if deps.NodeAllocator != nil {
+				release = append(release, func() { deps.NodeAllocator.Release() })
+			}
+			return deps.NodeID, nil
+		}
+		a := node.NewNodeIDAllocator(st)
+		id, err := a.AllocateNodeID(ctx)
+		if err == nil {
+			release = append(release, func() { a.Release() })
+		}
+		return id, err
+	}
+	idA, err := start(stA)
 	if err != nil {
 		return renewalOutcome{err: err}
 	}
@@ -68,13 +99,14 @@ func runRenewal() renewalOutcome {
 	time.Sleep(31500 * time.Millisecond) // one heartbeat
 	ttlAfterBeat := mr.TTL(key)
 	mr.FastForward(45 * time.Second)
-	b := node.NewNodeIDAllocator(stB)
-	idB, errB := b.AllocateNodeID(ctx)
-	defer a.Release()
-	defer b.Release()
+	idB, errB := start(stB)
 	if errB == nil && idB == idA {
-		return renewalOutcome{key: "C15/nodealloc/lock-renewal-misses-shared-cache/duplicate-live-node-id",
-			detail: fmt.Sprintf("node A holds %s (claimed in the shared cache with ttl %v) and heart-beats; 60 s later its renewal ran (ttl of the shared claim after the heartbeat: %v — not renewed), 45 s after that node B allocated %s as well: two live nodes with one node id", idA, ttl0, ttlAfterBeat, idB)}
+		k := "C15/nodealloc/lock-renewal-misses-shared-cache/duplicate-live-node-id"
+		if via == "component" {
+			k = "C15/nodealloc/lock-not-renewed-after-component-startup/duplicate-live-node-id"
+		}
+		return renewalOutcome{key: k,
+			detail: fmt.Sprintf("[start-up via "+via+"] node A holds %s (claimed in the shared cache with ttl %v) and heart-beats; 60 s later its renewal ran (ttl of the shared claim after the heartbeat: %v — not renewed), 45 s after that node B allocated %s as well: two live nodes with one node id", idA, ttl0, ttlAfterBeat, idB)}
 	}
 	return renewalOutcome{detail: fmt.Sprintf("A=%s B=%s ttl after heartbeat %v", idA, idB, ttlAfterBeat)}
 }
@@ -84,8 +116,11 @@ func TestARenewalStart(t *testing.T) {
 	if vkit.Shard() != 0 || vkit.Replaying() != "" {
 		t.Skip("single shard")
 	}
-	renewalDone = make(chan renewalOutcome, 1)
-	go func() { renewalDone <- runRenewal() }()
+	os.Unsetenv("NODE_ID")
+	renewalDone = make(chan renewalOutcome, len(renewalVias))
+	for _, via := range renewalVias {
+		go func(via string) { o := runRenewal(via); o.via = via; renewalDone <- o }(via)
+	}
 }
 
 var renewalCase = Case{Mode: "nodealloc-renewal"}
@@ -97,8 +132,8 @@ func reportRenewal(t *testing.T, o renewalOutcome) {
 	}
 	if o.key != "" {
 		vkit.Violation(t, o.key, o.detail, renewalCase)
-		vkit.Case("known:nodealloc/lock-renewal", true, "renewal")
+		vkit.Case("known:nodealloc/lock-renewal/"+o.via, true, "renewal"+o.via)
 		return
 	}
-	vkit.Case("nodealloc/lock-renewal", true, "renewal")
+	vkit.Case("nodealloc/lock-renewal/"+o.via, true, "renewal"+o.via)
 }
